@@ -31,7 +31,7 @@ RULE = ("case = random circuit over the exportable set (Ket, Bra, Bits(0), H, S,
         "{H,S,T,X,Y,Z,CX,CZ,Rx,Rz,CRz,Measure} on <= 4 qubits / <= 2 bits.  "
         "Non-trivial = at least one measurement/post-selection and one "
         "mid-circuit preparation or swap; distinct by repr.")
-SIZES = {"quick": (16, 60), "thorough": (16, 1500)}
+SIZES = {"quick": (16, 60), "thorough": (16, 1000)}
 TIMEOUT = {"quick": 900, "thorough": 7200}
 COVER = {"discopy.quantum.tk:to_tk": 0.85,
          "discopy.quantum.tk:to_tk.prepare_qubits": 0.9,
